@@ -1,5 +1,6 @@
 """C03 — unchanged steps are not re-run; a repeated build does nothing."""
 from worldcheck import *
+from sched import hx
 
 PROP = "C03"
 THEOREMS = [tuple(x) for x in json.load(open(os.path.join(VERIF, "lib", "pins", PROP + ".json")))]
@@ -16,5 +17,56 @@ def gen(rng, **kw):
     return steps, invs, info
 
 
+def gen_unrelated(rng, **kw):
+    """build everything; edit the manifest in ways that leave every existing step's inputs, outputs and command untouched
+    (add an unrelated step that uses a header some step discovered, reorder build statements); build again: only the new step may run"""
+    text, info = gen_project(rng, nmax=5)
+    files = {}
+    steps = []
+
+    def put(name, content):
+        files[name] = content
+        steps.append("file %s %s" % (hx(name), hx(content)))
+    put("build.ninja", text)
+    for s_ in info["sources"]:
+        put(s_, "".join("#include %s\n" % h for h in info["headers"]) + "// v\n")     # every header is reported, in a fixed order
+    for h in info["headers"]:
+        put(h, "// h v0\n")
+    invs = []
+    steps.append(S.inv_cmd(2, None, False, [], "-"))
+    invs.append({"j": 2, "k": None, "adopt": False, "targets": [], "files": dict(files), "nsteps": len(steps)})
+    # the edit
+    info2 = dict(info)
+    blds = list(info["builds"])
+    rng.shuffle(blds)
+    extra = {"outs": ["unrelated_out"], "ex": [rng.choice(list(reversed(info["headers"])))], "im": [], "oo": [], "opts": [], "tag": "u"}
+    pos = rng.randint(0, len(blds))
+    blds.insert(pos, extra)
+    info2["builds"] = blds
+    put("build.ninja", manifest_text(info2))
+    steps.append(S.inv_cmd(2, None, False, [], "-"))
+    invs.append({"j": 2, "k": None, "adopt": False, "targets": [], "files": dict(files), "nsteps": len(steps), "only_new": ["unrelated_out"]})
+    return steps, invs, info
+
+
+def monitor_unrelated(run, where, inv, meta, hist, ii, rep):
+    if "only_new" not in meta or isinstance(rep, str) or ii == 0:
+        return
+    if not rep[ii - 1].result.startswith("ok:") or not inv.result.startswith("ok:"):
+        return
+    g = inv.graphs[-1]
+    for b in inv.started:
+        outs = [g.files[o]["name"] for o in g.builds[b]["outs"]]
+        if not any(o in meta["only_new"] for o in outs):
+            run.report_failure(None, "after adding an unrelated statement and reordering, step %r was re-run although nothing of it changed" % outs, where)
+            return
+
+
+def gen_mixed(rng, **kw):
+    if rng.random() < 0.25:
+        return gen_unrelated(rng, **kw)
+    return gen(rng, **kw)
+
+
 def main(tier, seed, replay=None):
-    return world_check(PROP, THEOREMS, tier, seed, [monitor_null_build], scen_gen=gen, replay=replay)
+    return world_check(PROP, THEOREMS, tier, seed, [monitor_null_build, monitor_unrelated], scen_gen=gen_mixed, replay=replay)
